@@ -395,7 +395,8 @@ def frame_mutator(cls, arg, rnd):
 
 
 LLCP_GARBAGE = ["random", "trunc", "agf-badlen", "agf-deep", "i-wrong-ns", "frmr", "unknown-ptype", "to-free-sap",
-                "connect-trunc-tlv", "snep-short", "snep-huge-len", "snep-bad-version", "dm", "disc", "snl-garbage"]
+                "connect-trunc-tlv", "snep-short", "snep-huge-len", "snep-bad-version", "dm", "disc", "snl-garbage",
+                "agf-then-dm", "agf-then-disc", "agf-twice", "agf-then-cc"]
 
 
 def llcp_mutator(cls, rnd):
@@ -431,6 +432,12 @@ def llcp_mutator(cls, rnd):
             return bytes(P.encode(P.Disconnect(ds, ss)))
         if cls == "snl-garbage":
             return struct.pack(">H", 1 << 10 | 0b1001 << 6 | 1) + b"\x08\x01\x05" + b"\x09\x05\x01\xff"
+        if cls.startswith("agf-t") and p is not None and p.name not in ("AGF", "SYMM"):
+            # the genuine PDU followed at once (same frame, same dispatch) by a second connection-mode PDU: the
+            # application thread sees both queued before it runs
+            second = {"agf-then-dm": P.DisconnectedMode(p.dsap, p.ssap, 0), "agf-then-disc": P.Disconnect(p.dsap, p.ssap),
+                      "agf-twice": p, "agf-then-cc": P.ConnectionComplete(p.dsap, p.ssap)}[cls]
+            return bytes(P.encode(P.AggregatedFrame(0, 0, [p, second])))
         if cls.startswith("snep") and p is not None and p.name == "I":
             data = {"snep-short": b"\x10\x02\x00", "snep-huge-len": b"\x10\x02\xff\xff\xff\xff" + b"z" * 20,
                     "snep-bad-version": b"\xf0\x02\x00\x00\x00\x02ab"}[cls]
@@ -687,8 +694,10 @@ def gen_b(tier, seed):
                     out.append(dict(id="air%d" % n, kind="mitm", layer="air", src=src, at=at, cls=cls, arg=arg,
                                     seed=seed * 31 + n, server=rnd.choice("IT")))
     for src in ("I", "T"):
-        for at in ((0, 1, 2, 4, 6, 9) if quick else range(0, 24)):
+        for at in (range(0, 10) if quick else range(0, 24)):
             for cls in LLCP_GARBAGE:
+                if quick and at in (3, 5, 7, 8) and not cls.startswith("agf-t"):
+                    continue            # the follow-up classes are tried at every position of the set-up phase
                 n += 1
                 out.append(dict(id="llcp%d" % n, kind="mitm", layer="llcp", src=src, at=at, cls=cls, arg=0,
                                 seed=seed * 37 + n, server=rnd.choice("IT"), miu=rnd.choice([128, 248, 2175])))
@@ -722,7 +731,9 @@ def gen_b(tier, seed):
             break
     if quick:
         rnd.shuffle(out)
-        keep = [c for c in out if c["kind"] == "card"] + [c for c in out if c["kind"] == "mitm"][:900]
+        first = [c for c in out if c["kind"] == "mitm" and c["cls"].startswith("agf-t") and "burst" not in c and "svc" not in c]
+        rest = [c for c in out if c["kind"] == "mitm" and c not in first]
+        keep = [c for c in out if c["kind"] == "card"] + first + rest[:900 - len(first)]
         out = keep
     return out
 
